@@ -108,6 +108,7 @@ type gRun struct {
 	order    []int // GetMetas order as row indices
 	boot     []int
 	retries  []string // "<row>:<ok>" per post-start lookup of a fail-once component
+	createdAt, firstAtt, succAtt map[int]int // post-start lookups: in which attempt a node completed / a looked-up node was first tried / succeeded
 	typeNameHits []string // custom-named nodes whose default (type) name resolved in a lookup although nothing is registered under it
 	slotInfo map[string][3]string // "row.slot" → kind,target,tagkind+tag
 	appRow   int
@@ -253,15 +254,30 @@ func runGraph(sc *gScen) *gRun {
 	if res.status == "ok" && sc.retry() {
 		// the lazy components whose first creation is made to fail (and the designated entry points of retry cycles): look them
 		// up until they are created (at most 4 times); what each attempt answered is kept for the oracles
+		att := 0
+		res.createdAt, res.firstAtt, res.succAtt = map[int]int{}, map[int]int{}, map[int]int{}
 		for i, gn := range sc.nodes {
 			if gn.flt&(fltInitOnce|fltLookup) == 0 || tr.created[names[i]] {
 				continue
 			}
 			for attempt := 0; attempt < 4 && !tr.created[names[i]]; attempt++ {
+				att++
+				before := map[string]bool{}
+				for k, v := range tr.created {
+					before[k] = v
+				}
+				if _, ok := res.firstAtt[i]; !ok {
+					res.firstAtt[i] = att
+				}
 				var err error
 				if pan := hx.Guard(func() { _, err = a.GetComponentByName(names[i]) }); pan != nil {
 					res.status, res.errText = "panic", fmt.Sprint(pan)
 					break
+				}
+				for j := range sc.nodes {
+					if tr.created[names[j]] && !before[names[j]] {
+						res.createdAt[j] = att
+					}
 				}
 				cls := "true"
 				if err != nil {
@@ -269,6 +285,8 @@ func runGraph(sc *gScen) *gRun {
 					if strings.Contains(err.Error(), "has been wrapped") {
 						cls = "wrapped" // the stale-version check refused this attempt
 					}
+				} else {
+					res.succAtt[i] = att
 				}
 				res.retries = append(res.retries, fmt.Sprintf("%d:%s", i, cls))
 			}
@@ -952,10 +970,10 @@ func (r *gRun) oracles() []string {
 				}
 				seen[o] = true
 				if p, ok := pubOf[row]; ok && p != o {
-					if r.refusedBefore(row) {
-						// known finding KF-C03-1: an earlier attempt to create the target was refused by the stale-version check
-						// AFTER its cycle partner had been completed with the early reference; the partner stays published
-						add("c03-retry-stale-partner", "field %s holds %s but a later, successful lookup published %s: the holder was completed during an attempt that the stale-version check then refused, and was not removed with it", k, o, p)
+					if r.leftFromFailedAttempt(k, row) {
+						// known finding KF-C03-1: an earlier attempt to create the target failed (its own Init, or the stale-version
+						// check) AFTER its cycle partner had been completed with the early reference; the partner stays published
+						add("c03-retry-stale-partner", "field %s holds %s but a later, successful lookup published %s: the holder was completed during an earlier attempt that then failed, and was not removed with it", k, o, p)
 					} else {
 						add("c03-stale", "field %s holds %s but the published version is %s", k, o, p)
 					}
@@ -1362,14 +1380,18 @@ func (r *gRun) toleratedTarget(i int) bool {
 	return false
 }
 
-// refusedBefore: did the stale-version check refuse an earlier post-start attempt to create this row?
-func (r *gRun) refusedBefore(row string) bool {
-	for _, t := range r.retries {
-		if t == row+":wrapped" {
-			return true
-		}
+// leftFromFailedAttempt: was the holder of field k completed during an EARLIER, failed post-start attempt to create the
+// component `row` that it holds (and not removed with it)?
+func (r *gRun) leftFromFailedAttempt(k, row string) bool {
+	h, err1 := strconv.Atoi(k[:strings.Index(k, ".")])
+	t, err2 := strconv.Atoi(row)
+	if err1 != nil || err2 != nil {
+		return false
 	}
-	return false
+	c, ok1 := r.createdAt[h]
+	f, ok2 := r.firstAtt[t]
+	s, ok3 := r.succAtt[t]
+	return ok1 && ok2 && ok3 && f <= c && c < s
 }
 
 func (sc *gScen) hasType(ty int) bool {
